@@ -288,6 +288,11 @@ def _validate_params_with_signature(
 
     next_positional_index = 0
 
+    # Positional-only parameters can be filled only by position. Their names can never be
+    # bound by a keyword, so a same-named keyword goes to `**kwargs` (if any).
+    posonly_count = sum(1 for p in params_by_name.values() if p.kind == inspect.Parameter.POSITIONAL_ONLY)
+    valid_kwarg_names = valid_params[posonly_count:]
+
     # Process parameters in their original order
     for param in params:
         # This is a positional argument
@@ -302,7 +307,7 @@ def _validate_params_with_signature(
                 raise TypeError(f"takes {max_positional_index} positional argument(s) but more were given")
 
             # For non-variadic arguments, get the parameter name this maps to
-            if next_positional_index < max_positional_index:
+            if posonly_count <= next_positional_index < max_positional_index:
                 param_name = valid_params[next_positional_index]
                 # Check if this parameter was already provided as a kwarg
                 if param_name in used_param_names:
@@ -320,7 +325,7 @@ def _validate_params_with_signature(
                 raise TypeError(f"got multiple values for argument '{param.key}'")
 
             # Validate kwarg names if the function doesn't accept **kwargs
-            if not has_var_keyword and param.key not in valid_params:
+            if not has_var_keyword and param.key not in valid_kwarg_names:
                 raise TypeError(f"got an unexpected keyword argument '{param.key}'")
 
             validated_kwargs[param.key] = param.value
@@ -334,7 +339,14 @@ def _validate_params_with_signature(
         validated_kwargs.update(extra_kwargs)
 
     # Check for missing required arguments and apply defaults
-    for param_name, signature_param in params_by_name.items():
+    for param_index, (param_name, signature_param) in enumerate(params_by_name.items()):
+        if signature_param.kind == inspect.Parameter.POSITIONAL_ONLY:
+            # Not supplied by position - the default (if any) is applied by Python itself,
+            # because it cannot be passed as a keyword.
+            if param_index >= len(validated_args) and signature_param.default == inspect.Parameter.empty:
+                raise TypeError(f"missing a required argument: '{param_name}'")
+            continue
+
         if param_name in used_param_names or param_name in validated_kwargs:
             continue
 
@@ -380,6 +392,10 @@ def _validate_params_with_code(
     skip_params = 2
     param_names = param_names[skip_params:]
     positional_count = max(0, positional_count - skip_params)
+    # Positional-only parameters can be filled only by position. Their names can never be
+    # bound by a keyword, so a same-named keyword goes to `**kwargs` (if any).
+    posonly_count = max(0, getattr(code, "co_posonlyargcount", 0) - skip_params)
+    kwarg_param_names = param_names[posonly_count : positional_count + kwonly_count]  # noqa: E203
 
     # Calculate required counts
     num_defaults = len(defaults)
@@ -406,7 +422,7 @@ def _validate_params_with_code(
                 raise TypeError(f"takes {positional_count} positional argument(s) but more were given")
 
             # For non-variadic arguments, get parameter name
-            if next_positional_index < positional_count:
+            if posonly_count <= next_positional_index < positional_count:
                 param_name = param_names[next_positional_index]
                 if param_name in used_param_names:
                     raise TypeError(f"got multiple values for argument '{param_name}'")
@@ -423,8 +439,8 @@ def _validate_params_with_code(
                 raise TypeError(f"got multiple values for argument '{param.key}'")
 
             # Validate kwarg names
-            is_valid_kwarg = param.key in param_names[: positional_count + kwonly_count] or (  # Regular param
-                has_var_keyword and param.key not in param_names
+            is_valid_kwarg = param.key in kwarg_param_names or (  # Regular param
+                has_var_keyword and param.key not in kwarg_param_names
             )  # **kwargs param
             if not is_valid_kwarg:
                 raise TypeError(f"got an unexpected keyword argument '{param.key}'")
@@ -441,6 +457,13 @@ def _validate_params_with_code(
 
     # Check for missing required arguments and apply defaults
     for i, param_name in enumerate(param_names):
+        if i < posonly_count:  # Positional-only parameter
+            # Not supplied by position - the default (if any) is applied by Python itself,
+            # because it cannot be passed as a keyword.
+            if i >= len(validated_args) and i < required_positional:
+                raise TypeError(f"missing a required argument: '{param_name}'")
+            continue
+
         if param_name in used_param_names or param_name in validated_kwargs:
             continue
 
